@@ -215,6 +215,20 @@ static void run_resid(Json& js, vh::Rng& rng, int a, int b, bool padall) {
                 FftPlanR p(n);
                 const arr_cmplx X3 = p(xr);
                 resid(js, "C01.l2", "plan_r", n, n, CLS[cls], rel_l2(X3, ref), bound, X3.size());
+                {   // the raw-pointer interface of the plan objects (base-class overloads): all n bins into the caller's buffer
+                    arr_cmplx Y(n), Z(n);
+                    for (int i = 0; i < n; ++i) {
+                        Y[i] = cmplx_t(-7, 7), Z[i] = cmplx_t(-7, 7);   // a stale buffer
+                    }
+                    const BaseFftPlanR& br = p;
+                    br.solve(xr.data(), Y.data(), n);
+                    resid(js, "C01.l2", "plan_r_ptr", n, n, CLS[cls], rel_l2(Y, ref), bound, Y.size());
+                    FftPlan pc(n);
+                    const BaseFftPlanC& bc = pc;
+                    const arr_cmplx xcplx = complex(xr);
+                    bc.solve(xcplx.data(), Z.data(), n);
+                    resid(js, "C01.l2", "plan_c_ptr", n, n, CLS[cls], rel_l2(Z, ref), bound, Z.size());
+                }
                 const arr_cmplx X4 = fft(complex(xr));
                 resid(js, "C01.real_eq_cmplx", "fft_r", n, n, CLS[cls], maxdiff_rel(X1, X4), 2 * bound, X1.size());
                 // conjugate symmetry X[k] = conj(X[n-k])
@@ -366,6 +380,14 @@ static void run_czt(Json& js, vh::Rng& rng, long budget) {
             av = cmplx_t(1, 0);
         }
         const auto x = make_input(rng, n, (int)rng.range(0, 6), false);
+        // two calls with the same n, m and w but different start points a, back to back: nothing of the first may be reused
+        for (int rep = 0; rep < 2; ++rep) {
+        if (rep == 1) {
+            av = cmplx_t(av.im * 0.9 + 0.3, -av.re * 1.1);
+            if (abs(av) < 0.5 || abs(av) > 2) {
+                av = cmplx_t(0.6, -0.9);
+            }
+        }
         arr_cmplx X;
         const char* o = vh::outcome([&] { X = czt(toC(x), m, w, av); });
         // reference: sum_j x[j] a^-j w^(jk), with w and a as the doubles actually passed
@@ -400,6 +422,7 @@ static void run_czt(Json& js, vh::Rng& rng, long budget) {
         const double bound = 32.0 * (n + m) * EPS + 4.0 * EPS * (double)n * m + 2.0 * EPS * (double)fabsl(warg) * mx * mx;
         js.begin("Resid").str("clause", "C01.czt").str("api", "czt").num("n", n).num("n2", m).str("cls", o)
           .num("outlen", X.size()).num("err_milli", milli(err, bound)).num("chirp_milli", milli(err, EPS * (double)fabsl(warg) * mx * mx + 1e-300)).end();
+        }
     }
 }
 
